@@ -38,6 +38,10 @@ CHECKS = {
 
 NOT_YET = {}
 
+# entries reported by the builders of the other properties (text, ref, note, technique)
+for _pid, _c in json.load(open(os.path.join(HERE, "tools", "manifest_texts.json"))).items():
+    CHECKS[_pid] = dict(text=_c["text"], ref=_c["ref"], note=TRUST + _c["note"], technique=_c["technique"])
+
 
 def main():
     props = [json.loads(l) for l in open(os.path.join(HERE, "properties.jsonl"))]
